@@ -22,8 +22,8 @@ var defaultStub = []string{"Couchbase Server (simulated cluster: KV, sub-documen
 
 var componentOverrides = map[string][2][]string{
 	"C10": {
-		{"couchbase/membership.go (cbMembership: register, heart-beat, monitor, CAS index rewrite) over the real couchbase client wrappers and gocbcore", "servicediscovery/service_discovery.go + model.go (heart-beat loop, monitor loop, SetInfo filter)", "kubernetes/ha_membership.go, membership/membership.go", "EventBus"},
-		{"Couchbase Server (simulated cluster)", "servicediscovery RPC client and server (simulated Client acting on the peer's ServiceDiscovery the way rpc_server.go's Handler does)", "Kubernetes lease election (simulated; runs the three callbacks of stream/leader_election.go)", "whole Dcp objects are not started in this scenario", "clock, TCP, Go runtime coins as everywhere"},
+		{"couchbase/membership.go (cbMembership: register, heart-beat, monitor, CAS index rewrite) over the real couchbase client wrappers and gocbcore", "servicediscovery/service_discovery.go + model.go (heart-beat loop, monitor loop, SetInfo filter)", "kubernetes/ha_membership.go, membership/membership.go", "stream/leader_election.go OnBecomeLeader", "api (PUT /membership/info, GET /rebalance) and the whole Dcp object in the rebalance scenario", "EventBus"},
+		{"Couchbase Server (simulated cluster)", "servicediscovery RPC client and server (simulated Client acting on the peer's ServiceDiscovery the way rpc_server.go's Handler does)", "Kubernetes lease election (simulated; runs the real OnBecomeLeader, and the body of OnBecomeFollower with the rpc dial replaced)", "whole Dcp objects are not started in the two membership scenarios", "clock, TCP, Go runtime coins as everywhere"},
 	},
 	"C19": {
 		{"couchbase/healthcheck.go (NewHealthCheck, Start, Stop, run, performHealthCheck)"},
